@@ -77,8 +77,9 @@ class C02(SimSpec):
     hist_cases = {'quick': 1600, 'thorough': 40000}
     technique = ("property-based testing: generated cluster operation histories (and bounded exhaustive enumeration of them) "
                  "plus whole simulations, against a shadow pool model")
-    rule = ("(a) operation histories on a real Cluster of 1-5 machines: provision / release / ingest / allocate on any machine "
-            "class with any observation tag / advance, up to 40 operations (thorough also enumerates ALL histories up to depth 4 "
+    rule = ("(a) operation histories on a real Cluster of 1-5 machines: provision (incl. topping up a live reservation) / release / "
+            "ingest through the capacity check / ingest provisioning without it (may be refused) / allocate on any machine "
+            "class with any observation tag / advance, up to 40 operations, drained at the end (thorough also enumerates ALL histories up to depth 4 "
             "on 1-2 machines); (b) simulation trajectories, pools checked after every SimPy event. Non-trivial history = contains "
             ">= 1 refusal and at least one each of accepted reservation, ingest and allocation; non-trivial trajectory = >= 2 pool "
             "kinds non-empty at once; distinct = distinct canonical history / scenario JSON")
@@ -1001,7 +1002,7 @@ class C18:
     prop = 'C18'
     cases = {'quick': 4000, 'thorough': 60000}
     technique = "model-based property testing: generated tier-operation histories on a real Buffer + exhaustive grid of single moves and round trips"
-    rule = ("histories [store size | move hot->cold | move cold->hot | step k] on a real Buffer with generated capacities and both rate "
+    rule = ("histories [store size | deposit unlisted data | schedule | finish | move hot->cold | move cold->hot | step k] on a real Buffer with generated capacities and both rate "
             "orderings, one move at a time; thorough additionally enumerates the grid sizes 1..24 x hot rate 1..6 x cold rate 1..6 x "
             "{hot->cold, round trip} x {room, no room}; non-trivial = history with a started move where hot rate < cold rate or the size is "
             "not a multiple of the rate, or with a refused move; distinct = distinct canonical history JSON")
